@@ -1,7 +1,7 @@
 # C10 -- a replayed (or re-ordered) secured chunk is never delivered twice; received sequence
 # numbers strictly increase.
-# spec/ScRecv: sender (gopcua's: one message at a time) + adversary (replay / hold+release /
-# drop) + receiver.  TLC proves InvNoReplay / InvNoDoubleDelivery / StepSeqMonotone for the
+# spec/ScRecv: sender (gopcua's: one message at a time, optionally one token renewal between
+# two messages) + adversary (replay / hold+release / drop) + receiver.  TLC proves InvNoReplay / InvNoDoubleDelivery / StepSeqMonotone for the
 # contract receiver (sequence check in serial-number arithmetic with the Part 6 wrap), shows
 # that the invariants fail without the check (Dev_NoSeqCheck), and emits every bounded
 # behaviour with the outcome of each input.  Each behaviour is replayed on a real channel pair:
@@ -20,11 +20,13 @@ def body(run):
         lambda: run.tlc("ScRecv", "ScRecv_MC", "ScRecv_c10_mc.cfg", workers=2, label="contract: replay/reorder/drop, budget 2, 3 plans x 5 numberings (wrap)"),
         lambda: run.tlc("ScRecv", "ScRecv_MC", "ScRecv_c10_dev.cfg", workers=1, expect="violation", count=False,
                         label="deviation demo: no sequence check violates InvNoReplay"),
+        lambda: run.tlc("ScRecv", "ScRecv_MC", "ScRecv_c10_dev2.cfg", expect="violation", count=False, workers=1,
+                        label="deviation demo: a new sequence window at token renewal violates InvNoReplay"),
         lambda: run.tlc("ScRecv", "ScRecv_MC", "ScRecv_c10_gen_q.cfg" if q else "ScRecv_c10_gen_t.cfg", mode="gen", count=False,
                         label="behaviours with contract and as-is outcome of every input"),
         lambda: exe.__setitem__(0, run.go_build("screcv")),
     )
-    rows = [b for b in res[2].rows if sc.nontrivial(b)]
+    rows = [b for b in res[3].rows if sc.nontrivial(b) and any(s["in"] not in ("pass", "renew") for s in b["steps"])]
     behs = [b for b in rows if b["sp"]["first"] == 2]
     wrap = [b for b in rows if b["sp"]["first"] != 2]
     combos = [("Basic256Sha256", "Sign"), ("Basic256Sha256", "SignAndEncrypt")] if q else sc.SECURED
